@@ -243,6 +243,15 @@ func vRegisteredFigures(steps int, evts []EventType) {
 	W.n = 0
 	obsReg, fReg = [3]bool{}, [2]bool{}
 	figures("after-reset")
+	q[0], q[1] = f1.Query(), f1.Query()
+	qOpen[0], qOpen[1] = true, true
+	figures("after-reset-two-queries-open")
+	q[1].Close()
+	qOpen[1] = false
+	figures("after-reset-inner-query-closed")
+	q[0].Close()
+	qOpen[0] = false
+	figures("after-reset-all-closed")
 	Observe(OnAddComponents).Do(func(Entity) {}).Register(w)
 	obsReg[0] = true
 	figures("after-reset-and-register")
